@@ -82,6 +82,9 @@ func (g *j5Gen) entityPlan(pkg string, k *j5Known, style int, nWords int) *jEnti
 		name := names.Lower + "Id"
 		if i > 0 {
 			name = "partId"
+			if rng.Intn(3) == 0 {
+				name = names.Lower + "IdRev" // the first key's name is a prefix of this one
+			}
 		}
 		keys = append(keys, fld(name, keyFmt().with(func(t *jT) {
 			t.Primary = pB(true)
@@ -136,6 +139,14 @@ func (g *j5Gen) entityPlan(pkg string, k *j5Known, style int, nWords int) *jEnti
 		k = &j5Known{pkg: pkg, enums: map[string][]string{}}
 	}
 	e.Data = g.fields(k, rng.Intn(5), "")
+	// schemas declared inside the entity block, used by its data
+	if rng.Intn(3) == 0 {
+		e.Schemas = append(e.Schemas,
+			&jDecl{Kind: kObject, Name: names.Camel + "Extra", Fields: []*jF{fld("note", tScalar(kString))}},
+			&jDecl{Kind: kEnum, Name: names.Camel + "Kind", Options: []string{"BIG", "SMALL"}})
+		e.Data = append(e.Data, fld("entityExtra", tRef(kObject, names.Camel+"Extra", pkg+"."+names.Camel+"Extra")), fld("entityKind", tRef(kEnum, names.Camel+"Kind", pkg+"."+names.Camel+"Kind")))
+		dedupeFields(&e.Data)
+	}
 	// statuses
 	all := []string{"ACTIVE", "INACTIVE", "PENDING", "ARCHIVED"}
 	e.Statuses = all[:1+rng.Intn(len(all))]
@@ -407,7 +418,8 @@ func (g *j5Gen) apiBundle(withEntity, withList bool, recursion int) (*jBundle, [
 		}
 		f.Elems = append(f.Elems, &jElem{Service: g.apiService("Api"+tn[0], pkg, k, listItem, f)})
 		if rng.Intn(3) == 0 {
-			f.Elems = append(f.Elems, &jElem{Topic: &jTopic{Name: "Note" + tn[0], Type: "publish", Messages: []*jTopicMsg{{Name: "Send" + tn[0], Fields: g.fields(k, rng.Intn(3), "")}}}})
+			msgName := []string{"Send", "Verify2fa", "Push3dModel", "PostHTTP"}[rng.Intn(4)] + tn[0]
+			f.Elems = append(f.Elems, &jElem{Topic: &jTopic{Name: "Note" + tn[0], Type: "publish", Messages: []*jTopicMsg{{Name: msgName, Fields: g.fields(k, rng.Intn(3), "")}}}})
 		}
 		if withEntity {
 			nEnt := 1 + rng.Intn(2)
